@@ -26,3 +26,4 @@ INVARIANT LawLinearInX
 INVARIANT LawShiftValue
 INVARIANT LawReverseValue
 INVARIANT LawCompare
+INVARIANT LawConstantNames
